@@ -83,6 +83,14 @@ def run(tier, pid=PID):
                       "%s outcomes=%s schedule=%s: %s at step %s: %s" % (h.shape_name, h.oa, h.sched, res["kind"], res.get("step"),
                                                                        json.dumps(describe(h, res.get("step")))[:1500]),
                       dict(shape=h.shape_name, oa=h.oa, sched=h.sched))
+    # the shape expansion and the graph the real code builds must have the same edges; a difference makes the real controller
+    # schedule differently from the specification, which the trace validation above reports - if it did not, the shapes
+    # (not the code) are suspect: machinery error
+    drifted = [h for h in runs if getattr(h, "drift", None)]
+    chk.cov["runs_with_graph_edge_drift"] = len(drifted)
+    if drifted and not chk.violations and not chk.known_hit:
+        raise MachineryError("the real workflow graph differs from the shape expansion but no run was rejected: %s %s" % (
+            drifted[0].shape_name, drifted[0].drift))
     launches = sum(1 for h in runs for e in h.trace for c in e["calls"] if c[0] == "Run")
     chk.cov["launches_observed"] = launches
     chk.cov["real_runs_with_external_kill"] = sum(1 for h in runs if h.killed)
